@@ -24,7 +24,7 @@ func runC15(run *common.Run) {
 		"0 sources: a 4xx (nothing changed) or an empty object are both accepted (the statement says 1 to 32)",
 		"a composite object need not carry an md5Hash",
 		"when several failure reasons apply (e.g. 33 sources one of which is missing) any of their statuses is accepted",
-		"a copy onto the source itself is not generated (source untouched and destination rewritten contradict each other)",
+		"a copy onto the source itself must keep content, MD5 and user-settable metadata and gives the object a new generation",
 		"file store: only names representable as files",
 		"zero-valued byte counts / sizes may be omitted from JSON",
 	}
@@ -223,10 +223,15 @@ func c15Case(run *common.Run, srv *drive.Server, idx int) {
 			if len(live) > 0 && !r.Chance(1, 10) {
 				sn = common.Pick(r, live)
 			}
+			// one copy in eight goes onto the source itself: content, MD5 and metadata must survive (only the generation is new)
+			selfCopy := sn != "missing-source" && r.Chance(1, 8)
 			dn, ok := "", false
+			if selfCopy {
+				db, dn, ok = sb, sn, true
+			}
 			for tries := 0; tries < 20 && !ok; tries++ {
 				dn, ok = pickName(db, dstCands)
-				if ok && db == sb && dn == sn {
+				if ok && db == sb && dn == sn && !selfCopy {
 					ok = false
 				}
 			}
